@@ -1,12 +1,47 @@
-import RimuModel.Block
+import RimuProofs.Props.C20
+
+/-!
+# C05  reset makes render a pure function of source and options
+
+`document.init()` overwrites every module table and option with a constant before anything reads session
+state; the two scratch registers it does not touch (`lists.ids`, `spans.savedReplacements`) and the message log
+are the only residue.  In the model a `render` call with `reset=True` / `'true'` therefore returns the same
+html, the same messages and the same final state from any two sessions that agree on those three fields, in
+particular the same as on the state of a fresh process.
+-/
 
 namespace Props.C05
-open Rimu
+open Rimu Props.C04 Props.C20
 
-/-- placeholder while the pipeline is brought up -/
-theorem documentInit_const (s₁ s₂ : Session) (h : s₁.listIds = s₂.listIds ∧ s₁.saved = s₂.saved ∧ s₁.log = s₂.log) :
-    (documentInit.run s₁) = (documentInit.run s₂) := by
-  obtain ⟨h1, h2, h3⟩ := h
-  simp [documentInit, modify, modifyGet, MonadStateOf.modifyGet, StateT.modifyGet, StateT.run, pure, Except.pure, h1, h2, h3]
+/-- **C05.**  With reset requested, the whole result of the call (html or exception, messages, final state) does not
+    depend on the session it is made in, beyond `lists.ids`, `spans.savedReplacements` and the log. -/
+theorem reset_render_is_pure (env : Env) (fuel : Nat) (src : Str) (o : RenderOptions) (s₁ s₂ : Session)
+    (hreset : o.reset = .bool true ∨ o.reset = .str "true".toList)
+    (hl : s₁.log = s₂.log) (hi : s₁.listIds = s₂.listIds) (hs : s₁.saved = s₂.saved) :
+    (apiRender env fuel src o).run s₁ = (apiRender env fuel src o).run s₂ := by
+  rw [apiRender_eq, run_bind, run_bind, apiPrefix_reset o s₁ s₂ hreset hl hi hs]
+
+/-- ... in particular it equals the same call made first in a fresh process. -/
+theorem reset_render_equals_fresh_process (env : Env) (fuel : Nat) (src : Str) (o : RenderOptions) (s : Session)
+    (hreset : o.reset = .bool true ∨ o.reset = .str "true".toList)
+    (hl : s.log = []) (hi : s.listIds = []) (hs : s.saved = []) :
+    (apiRender env fuel src o).run s = (apiRender env fuel src o).run Session.uninit :=
+  reset_render_is_pure env fuel src o s Session.uninit hreset hl hi hs
+
+/-- The residue cannot influence span rendering: `spans.render` empties the placeholder queue before it reads it. -/
+theorem spansRender_ignores_saved (rec : Rec) (env : Env) (src : Str) (s : Session) (q : List Fragment) :
+    (spansRender rec env src).run { s with saved := q } = (spansRender rec env src).run s := by
+  unfold spansRender preReplacements
+  simp only [bind_assoc, run_bind, run_modify]
+
+/-- Non-vacuity: a session that customised every kind of definition, then the reset render of a source using them. -/
+example :
+    (match (apiRender ⟨fun _ _ => .error⟩ 30 "= = '<u>|</u>'\n\n{m} = 'v'\n\n.cls #i\n".toList {}).run Session.uninit with
+     | .ok (_, s) =>
+       (match (apiRender ⟨fun _ _ => .error⟩ 30 "=a= {m}".toList { reset := .bool true }).run s,
+              (apiRender ⟨fun _ _ => .error⟩ 30 "=a= {m}".toList { reset := .bool true }).run Session.uninit with
+        | .ok (h1, _), .ok (h2, _) => h1 == h2 && s.quoteDefs.length == 8 && s.classes == "cls".toList
+        | _, _ => false)
+     | .error _ => false) = true := by decide +kernel
 
 end Props.C05
